@@ -14,7 +14,7 @@ META = {
         "own index), that the second part is only reached on the first part's Ok edge (early exit: no later part runs or consumes randomness after a failure), "
         "and that the wrappers are single forwarders. Arbitrary nesting follows by structural induction over these per-combinator facts (argued, not mechanised)."),
     "rules": {
-        "R14.1": "Then: g.apply(ok(f.apply(x, rng)), rng); f's error -> ThenError::First and early return without calling g; g's error -> Second",
+        "R14.1": "Then: g.apply(ok(f.apply(x, rng)), rng); f's error -> ThenError::First and early return without calling g; g's error -> Second; no inherent method hides a Composable/Operator method with a different computation, no impl overrides a provided Composable method differently",
         "R14.2": "And: f.apply(x.clone(), rng) then g.apply(x, rng); Ok((f_value, g_value)); First/Second; g only after f succeeded",
         "R14.3": "Map: element 0 then element 1 with MapError(_, 0) / MapError(_, 1), outputs in input order; Vec: into_iter().enumerate().map(f.apply(x) tagged with the enumerate index).collect() with no reordering adaptor",
         "R14.4": "RepeatWith: repeat_with(|| f.apply(input.clone(), rng)).take(N) collected into Result<Vec,_>, N the const generic; unreachable! discharged by take(N)",
@@ -150,6 +150,10 @@ def check_error_messages(ctx):
 
 
 def check(ctx):
+    from .common import override_audit
+    ctx.floor('R14.1', override_audit(ctx, 'R14.1', ('ec_core::operator::composable::Composable',)), 7, 'provided methods of Composable (override audit)')
+    from .common import shadowing_audit
+    ctx.floor("R14.1", shadowing_audit(ctx, "R14.1", ("ec_core::operator::composable::", "ec_core::operator::Operator")), 8, "Composable / Operator impls of workspace types (shadowing audit)")
     check_error_messages(ctx)
     from .ctors import check_table
     check_table(ctx, "C14", "R14.6")
